@@ -242,7 +242,9 @@ impl FileManager {
 
     pub fn mark_current_field_list(&mut self, variable_name: &str) -> Result<(), RuntimeError> {
         for file_info in self.handle_map.values_mut() {
-            for i in 0..file_info.field_lists.len() {
+            // the FIELD statement executed last wins: a variable that was fielded again
+            // (with other widths) belongs to its new list
+            for i in (0..file_info.field_lists.len()).rev() {
                 let field_list = &file_info.field_lists[i];
                 for field in field_list {
                     if field.name.eq_ignore_ascii_case(variable_name) {
